@@ -270,6 +270,46 @@ pub fn check_final_values(sut: &Sut, logs: &[OpRec], counts: &mut Counts, findin
     }
 }
 
+/// Outcomes of writes to a key that was *definitely present* for the whole call (C07a / C08 under concurrency; only for runs
+/// without memory pressure and without time-to-live, where nothing but a delete removes a key): some value-bearing write W of
+/// the key was acknowledged Accepted before the call began, and no delete of the key could have taken effect after W and before
+/// the call's acknowledgement. Then a put must be answered KeyAlreadyExists and an upsert must be Accepted.
+pub fn check_definitely_present(logs: &[OpRec], counts: &mut Counts, findings: &mut Vec<Finding>, witness: &dyn Fn(&[&OpRec]) -> J) {
+    let mut by_key: BTreeMap<u64, Vec<&OpRec>> = BTreeMap::new();
+    for rec in logs { if let Outcome::Write { op, .. } = &rec.outcome { by_key.entry(op.key()).or_default().push(rec); } }
+    for (key, writes) in by_key {
+        for target in writes.iter() {
+            let (op, status, acked_at) = match &target.outcome { Outcome::Write { op, status: Some(Waited::Ready(s)), acked_at: Some(a), .. } => (op, *s, *a), _ => continue };
+            if matches!(op, WriteOp::Delete { .. }) { continue; }
+            // a supporting write: accepted, value-bearing, acknowledged before the target began
+            let support = writes.iter().filter(|w| !std::ptr::eq(**w, *target)).filter_map(|w| match &w.outcome {
+                Outcome::Write { op: wop, status: Some(Waited::Ready(CommandStatus::Accepted)), acked_at: Some(a), .. } if wop.value().is_some() && *a < target.call => Some((*w, *a)),
+                _ => None,
+            }).max_by_key(|(_, a)| *a);
+            let (support, _) = match support { Some(s) => s, None => continue };
+            // any delete that may have run after the supporting write was stored and before the target was acknowledged?
+            let threatened = writes.iter().any(|d| match &d.outcome {
+                Outcome::Write { op: WriteOp::Delete { .. }, acked_at: d_acked, .. } => d.call < acked_at && d_acked.map(|a| a > support.call).unwrap_or(true),
+                _ => false,
+            });
+            if threatened { continue; }
+            counts.inc("writes_to_a_definitely_present_key_judged");
+            if op.is_put() && status != CommandStatus::Rejected(RejectionReason::KeyAlreadyExists) {
+                findings.push(Finding { props: vec!["C07", "C05"], signature: format!("C07/put-on-readable-key-not-rejected/concurrent/{}", status_name(&status)),
+                    detail: format!("{} of key {} resolved to {} although {} had been acknowledged Accepted before it began and no delete of the key could have intervened", op.name(), key, status_name(&status), support_shape(support)),
+                    witness: witness(&[support, *target]), inconclusive: false });
+            }
+            if matches!(op, WriteOp::Upsert { .. }) && status != CommandStatus::Accepted {
+                findings.push(Finding { props: vec!["C08"], signature: format!("C08/upsert-of-readable-key-not-accepted/concurrent/{}", status_name(&status)),
+                    detail: format!("{} of key {} resolved to {} although the key was present for the whole call ({} acknowledged Accepted before, no delete could have intervened)", op.shape(), key, status_name(&status), support_shape(support)),
+                    witness: witness(&[support, *target]), inconclusive: false });
+            }
+        }
+    }
+}
+
+fn support_shape(rec: &OpRec) -> String { match &rec.outcome { Outcome::Write { op, .. } => op.shape(), _ => "?".into() } }
+
 /// Classifies abnormal acknowledgement outcomes found in client logs (C12 / C17 / C18).
 pub fn check_ack_outcomes(logs: &[OpRec], during_shutdown: bool, counts: &mut Counts, findings: &mut Vec<Finding>, witness: &dyn Fn(&[&OpRec]) -> J, panic_mark: usize) {
     for rec in logs {
@@ -579,6 +619,7 @@ fn run_mixed(focus: &'static str, seed: u64, index: u64, clean: bool) -> CaseOut
     check_ack_outcomes(&logs, false, &mut counts, &mut findings, &witness, panic_mark);
     check_reads(&logs, &mut counts, &mut findings, &witness);
     check_expiry(&logs, &mut counts, &mut findings, &witness);
+    if !cfg.pressure && !cfg.ttl { check_definitely_present(&logs, &mut counts, &mut findings, &witness); }
     // quiescence: every command acknowledged, two sweeps since the clock stopped
     let mut quiescent = true;
     if let Err(waited) = sut.quiesce().and_then(|_| sut.settle_fresh()) {
